@@ -164,6 +164,22 @@ package openflow13
 //@     invariant 16 <= n && int(s.Header.Length) <= len(data) && allwfl(req) && n == 16 + sum(req) && (n <= int(s.Header.Length) || len(req) == 0)
 //@     decreases int(s.Header.Length) - n
 
+// C04: every record of a multipart reply body is of the kind its type code names (OpenFlow 1.3.5 section 7.3.5,
+// enum ofp_multipart_type: DESC=0 ofp_desc, FLOW=1 ofp_flow_stats[], AGGREGATE=2 ofp_aggregate_stats_reply,
+// TABLE=3 ofp_table_stats[], PORT_STATS=4 ofp_port_stats[], QUEUE=5 ofp_queue_stats[], PORT_DESC=13 ofp_port[]),
+// for every number of records
+//@ spec mpcode(m *DescStats) = 0
+//@ spec mpcode(m *FlowStats) = 1
+//@ spec mpcode(m *AggregateStats) = 2
+//@ spec mpcode(m *TableStats) = 3
+//@ spec mpcode(m *PortStats) = 4
+//@ spec mpcode(m *QueueStats) = 5
+//@ spec mpcode(m *PhyPort) = 13
+//@ also (*MultipartReply).UnmarshalBinary(s, data) (err) [C04]
+//@   ensures[C04 C05] @bodykind: err == nil ==> allspec(s.Body, len(s.Body), "mpcode", be16(data, 8))
+//@   loop 1:
+//@     invariant[C04 C05] allspec(req, len(req), "mpcode", s.Type)
+
 //@ elemdecoder (*DescStats).UnmarshalBinary(s, data) (err) [C07 C12]
 
 //@ decoder (*FlowStatsRequest).UnmarshalBinary(s, data) (err) [C07 C12]
